@@ -1324,8 +1324,17 @@ class Core(composites.Composite):
         if not locContents:
             locContents = self.makeLocationLookup(assemblyLevel)
         try:
-            # now look 'em up
-            return [locContents[str(loc)] for loc in locs]
+            # now look 'em up (location objects are looked up by the label of their indices)
+            return [
+                locContents[
+                    loc
+                    if isinstance(loc, str)
+                    else self.spatialGrid.getLabel(
+                        loc.getCompleteIndices()[: 2 if assemblyLevel else 3]
+                    )
+                ]
+                for loc in locs
+            ]
         except KeyError as e:
             raise KeyError("There is nothing in core location {0}.".format(e))
 
